@@ -129,6 +129,11 @@ def run_case(rng, tier, case):
             fut[np.asarray(tmin.index, int)] = tmin.values >= k
             samples = [{kk: np.asarray(v, float) for kk, v in p.items()} for p in scen]
             start_future = pts[k]
+            if k >= 1 and rng.random() < 0.3:
+                # the boundary given as a date strictly between two grid points: the step that is already running belongs to the present, the
+                # future starts with the next grid point (the same partition as for the boundary on that grid point)
+                start_future = pts[k] - (pts[k] - pts[k - 1]) * float(gen.pick(rng, [0.5, 0.25, 0.75]))
+                case.feature('boundary_between_grid_points')
             op_slp = SLP.make_slp(op0, P, tg, start_future.to_pydatetime() if rng.random() < 0.5 else start_future, samples)
             res_slp = op_slp.optimize()
         except Exception as e:
